@@ -356,8 +356,22 @@ def nonreflexive_harness(e):
         a_val, b_val = float("nan"), float("nan")
     else:
         a_val = b_val = value
-    where = e.pick(["two-fields", "two-sequence-elements"], "where")
-    if where == "two-fields":
+    where = e.pick(["two-fields", "two-sequence-elements", "two-tuple-fields-of-nodes", "tail-capture-then-tuple-field"], "where")
+    if where in ("two-tuple-fields-of-nodes", "tail-capture-then-tuple-field"):
+        # a captured TUPLE is no node: `$name` means == (which, for the nodes inside, includes origins)
+        from models.zoo import VLeaf, VTwoSeq, origin
+
+        okind = ["same-origins", "origins-differ", "content-differs"][vno % 3]
+        lo, ro = origin("a"), origin("a" if okind == "same-origins" else "b")
+        left = (VLeaf(v=1, origin=lo), VLeaf(v=2))
+        right = (VLeaf(v=1 if okind != "content-differs" else 3, origin=ro), VLeaf(v=2))
+        node = VTwoSeq(left=left, right=right)
+        if where == "two-tuple-fields-of-nodes":
+            desc = T(["VTwoSeq"], ("left", None, "s"), ("right", ("val", ("var", "s")), None))
+        else:
+            desc = T(["VTwoSeq"], ("left", ("seq", [], ("*", "rest")), None), ("right", ("val", ("var", "rest")), None))
+        label = okind
+    elif where == "two-fields":
         node = build(R("VStr2", {"a": a_val, "b": b_val}))
         desc = T(["VStr2"], ("a", None, "v"), ("b", ("val", ("var", "v")), None))
     else:
